@@ -465,6 +465,32 @@ PROPS['C18'] = dict(
 PROPS['C18']['streams'] = env_streams
 
 
+def state_streams(tier):
+    n = {'quick': 480, 'extended': 2400, 'thorough': 16000}[tier]
+    return [dict(name='histories-vs-one-session', harness=['state', str(n), '{seed}', '{shard}', '{nshards}'], driver='state', timeout=3000)]
+
+
+PROPS['C12'] = dict(
+    family='line', tags={'H': 'state'},
+    theorems=['C12_restore_persist', 'C12_carry', 'C12_detached_leaves_nothing'],
+    streams=state_streams,
+    spec_kinds=['SPEC:C12'], corr_kinds=['DIFF:state-file'],
+    case_format='H <step;step: <D = detached><classes of the mutations: v variable x exported u unset a array m associative array i attribute f function l alias o set option s shopt d cd p pushd/popd I inherited variable changed U inherited variable unset B bash default unset r readonly n nasty value>:<hex snippet>>|'
+                '<hex stdout~~stderr of each test case through StatefulExecutor+BashRunner | detached>|<the same from ONE bash session>|<per later test case: hex names declared in the state file it found/hex names that existed/hex read-only names>',
+    rule='histories of 2-6 test cases, each 0-3 mutations drawn from 80 snippets (define / modify / unset of variables, exported variables, arrays incl. sparse, associative arrays, integer / case attributes, functions incl. here-documents and case, aliases, set -u/-f/-C/pipefail, shopt, cd, pushd/popd; values with spaces, quotes, newlines, tabs, ESC, non-ASCII, $ ` \\ * ?; names that merely begin like an excluded one: UID_MIN, SCRUT_TEST_X, LINENO_FIRST, BASH_SOURCE_DIRS, PPIDX, code), '
+         'half of the histories concentrated on one family so that define/modify/unset meet; 1 in 8 test cases detached; after every test case a probe prints declare -p of 22 names, the exported environment, functions (and calls them), aliases, options, directory and directory stack. '
+         'The same snippets are fed to one bash process (a detached one in a subshell) and the outputs compared per test case; the state file each test case found is copied out and compared with the filter model. bash = the one on PATH. Non-trivial: at least one mutation; distinct by history',
+    manifest=dict(text='Machine-checked theorems (Coq): a fresh process that sources what the carrier persisted for a carriable state observes exactly that state -- every visible variable with value, export flag and attributes, functions, aliases, options, directory, directory stack (filters: read-only and the excluded names, whole names, list regenerated from bash_runner.rs); hence for ANY semantics of the snippets that cannot observe the excluded variables, and any history with detached test cases anywhere, one process per test case yields the outputs of a single session; a detached test case leaves the state file untouched. The premises are shown necessary by closed witnesses (the known findings). '
+                       'Tied to /repo and to the bash on PATH by differential runs: the real StatefulExecutor + BashRunner against one bash session on generated histories, output compared per test case, and the state files really written compared with the filter model. Partial: that `declare -p` / `alias -p` / `declare -f` / `set +o` / `shopt -p` print text whose `source` reproduces the value is bash behaviour -- exercised by the runs (bash 5.2 here), not proved.',
+                  technique='Coq proof (simulation between per-process execution with a state file and a single session, over an abstract snippet semantics) + regenerated exclusion list + differential runs of the real executor against one real bash session',
+                  note='Partial: bash quoting/printing of values and the trap/exit interplay are runtime behaviour of the bash on PATH; the result depends on that bash (version recorded in the evidence assumptions).'),
+    exhaustive={'quick': False, 'thorough': False},
+    assumptions=['bash on PATH: /usr/bin/bash 5.2.x in this sandbox; other versions print declare -p differently (the template has a branch for bash < 4 that is not exercised here)',
+                 'state the carrier is documented not to carry: read-only variables, variables whose names contain other characters than letters, digits, underscore',
+                 'set -e / set -x are not part of the generated histories (they change what the probe itself does)'],
+)
+
+
 def run_one(prop, inp, ctx):
     """re-run one case through the implementation and the model; returns CASE lines"""
     cfg = PROPS[prop]
@@ -476,7 +502,7 @@ def run_one(prop, inp, ctx):
     if fam == 'line':
         # generic: the case line carries the implementation's result; re-evaluate the model/oracle on it
         tag = inp[:1]
-        drv = cfg.get('tags', {}).get(tag) or {'X': 'exec', 'R': 'cli', 'V': 'validate', 'E': 'config', 'A': 'config', 'D': 'config', 'P': 'config', 'S': 'escape', 'N': 'render', 'W': 'envrun'}.get(tag, cfg['streams']('quick')[0]['driver'])
+        drv = cfg.get('tags', {}).get(tag) or {'X': 'exec', 'R': 'cli', 'V': 'validate', 'E': 'config', 'A': 'config', 'D': 'config', 'P': 'config', 'S': 'escape', 'N': 'render', 'W': 'envrun', 'H': 'state', 'Q': 'cfgcli'}.get(tag, cfg['streams']('quick')[0]['driver'])
         rc, out = ctx['sh']([ctx['SVD'], drv], inp=(inp + '\n').encode())
         return [l for l in out.split('\n') if l.startswith('CASE')], out
     return [], ''
